@@ -2,7 +2,8 @@
 # runs every property's thorough tier once, sequentially, and prints one summary line per property
 cd "$(dirname "$0")/.."
 make -j16 all > /tmp/thorough_build.log 2>&1 || { echo "BUILD FAILED"; tail -20 /tmp/thorough_build.log; exit 2; }
-for p in $(cat props.d/enabled.txt); do
+LIST=$(cat props.d/enabled.txt); [ "$1" = "reverse" ] && LIST=$(tac props.d/enabled.txt); [ -n "$2" ] && LIST=$(echo "$LIST" | head -n "$2")
+for p in $LIST; do
   t0=$(date +%s)
   out=$(nice -n 5 ./check $p --tier thorough 2>&1); rc=$?
   echo "$p exit=$rc wall=$(( $(date +%s) - t0 ))s $(echo "$out" | grep -E 'tier=thorough|VIOLATION|BROKEN|KNOWN-FINDING' | tr '\n' ' ' | cut -c1-400)"
